@@ -198,9 +198,24 @@ def wl_algebra(ctx, rng, case_no):
     recs = [G.rand_record(rng, p_attr=p, p_link=0.3) for _ in range(3)]
     if rng.random() < 0.15:
         recs[rng.randrange(3)] = {"attrs": {}, "fg": None, "bg": None, "link": None}
-    build = rng.choice(["kwargs", "parse", "mixed"])
+    build = rng.choice(["kwargs", "parse", "mixed", "derived", "derived"])
+
+    def derived(rec):
+        # an operand that is itself the result of an operation (nothing has asked for its hash or text form yet):
+        # the sum of two halves of the record, or the link put on afterwards
+        names = sorted(rec["attrs"])
+        cut = rng.randint(0, len(names))
+        one = {"attrs": {n: rec["attrs"][n] for n in names[:cut]}, "fg": rec["fg"], "bg": None, "link": None}
+        two = {"attrs": {n: rec["attrs"][n] for n in names[cut:]}, "fg": None, "bg": rec["bg"], "link": None}
+        st = G.build(one) + G.build(two)
+        if rec["link"] is not None:
+            st = st.update_link(rec["link"]) if rng.random() < 0.5 else st + Style(link=rec["link"])
+        return st
 
     def mk(rec):
+        if build == "derived":
+            ctx.count("mon.derived_operands")
+            return derived(rec)
         if build == "kwargs" or (build == "mixed" and rng.random() < 0.5):
             if rec["link"] is None and rng.random() < 0.1:
                 return G.build(rec) + Style(link="") if rng.random() < 0.5 else Style(link="") + G.build(rec)
@@ -210,6 +225,13 @@ def wl_algebra(ctx, rng, case_no):
     ra, rb, rc = recs
     what = {"a": ra, "b": rb, "c": rc, "built_by": build}
     null = rng.choice([Style(), Style.null(), Style.parse("none"), Style.parse("")])
+    if build == "derived":
+        # before anything looks at the operands (comparisons compute and keep their hashes): the folds over them
+        ctx.count("mon.fold_of_untouched_operands")
+        want3 = G.add_records(G.add_records(ra, rb), rc)
+        _chk_view(ctx, "chain-not-the-sum-of-its-operands", Style.chain(a, b, c), want3, dict(what, via="chain"))
+        _chk_view(ctx, "chain-not-the-sum-of-its-operands", Style.combine([a, b, c]), want3, dict(what, via="combine"))
+        _chk_view(ctx, "chain-not-the-sum-of-its-operands", Style.combine(iter([a, b, c, c])), want3, dict(what, via="combine-iterator"))
     # identity
     for s, r in ((a, ra), (b, rb)):
         ctx.count("mon.identity")
